@@ -182,6 +182,7 @@ pub fn consume(resp: Response, plan: &ReadPlan, extra: &[usize], payload_len: us
             Consumed::Hist(hist)
         }
         ReadPlan::Json => Consumed::Json(resp.json::<serde_json::Value>().map_err(|e| format!("{e:?}"))),
+        ReadPlan::JsonUtf8 => Consumed::Json(resp.json_utf8::<serde_json::Value>().map_err(|e| format!("{e:?}"))),
     }
 }
 
